@@ -101,7 +101,7 @@ func checkC12(c *Ctx, r *Report) {
 
 // C15 — parameter sets and slice headers (id-domain typing clause only).
 func checkC15(c *Ctx, r *Report) {
-	r.Explanation = "T-VERBATIM: avc.CodecString formats SPS.Profile, SPS.ProfileCompatibility and SPS.Level as loaded (conversions only, no arithmetic); One structural clause (id-domain typing): every lookup in / insertion into a map of sequence parameter sets is keyed by a value from the SPS-id domain " +
+	r.Explanation = "L-RAWFIELD: a field that the function reduces with a constant modulus and compares in the reduced form (AVC slice_type % 5) is not also compared raw with a constant; O-SIZELAST: where a parser stores the reader's byte count as the size of its result (SliceHeader.Size, SPS.NrBytesRead) no read from that reader is reachable afterwards; DEP: CreateAVCDecConfRec sets profile, compatibility and level from the SPS on every path to the successful return; T-VERBATIM: avc.CodecString formats SPS.Profile, SPS.ProfileCompatibility and SPS.Level as loaded (conversions only, no arithmetic); One structural clause (id-domain typing): every lookup in / insertion into a map of sequence parameter sets is keyed by a value from the SPS-id domain " +
 		"(SPS.ParameterID, SPS.SpsID, PPS.SeqParameterSetID) and never by one from the PPS-id domain (PPS.PicParameterSetID, SliceHeader.PicParamID / PicParameterSetId); maps of picture parameter sets the other way round. " +
 		"(L-SIGNEDMOD) where a signed sum that includes a signed Exp-Golomb delta is reduced modulo a constant M (the scaling-list recurrence), the dividend carries a constant bias of at least M; So the slice resolves its PPS by the slice's pps id and the SPS by THAT PPS's sps id. (L-SIBLING) no parser loop fills one of two twin lists (…L0/…L1, …S0/…S1) while deciding with the other list only; (T-SPEC) the sample-aspect-ratio table of avc.GetSARfromIDC equals H.264 Table E-1; (FWD-FIELD) no field-to-field copy between two struct types takes the value of a sibling field when both types have both names (e.g. chroma bit depth filled from luma bit depth). Parsed field values, the cropping formula, slice header length and codec strings are NOT decided."
 	spsDom := map[string]bool{"SPS.ParameterID": true, "SPS.SpsID": true, "PPS.SeqParameterSetID": true}
@@ -198,6 +198,18 @@ func checkC15(c *Ctx, r *Report) {
 	ruleTableReach(c, r, map[string]bool{"avc.aspectRatioTable": true})
 	requireFixture(r, "T-REACH", "tightLookup", func(fc *Ctx, s *Report) { ruleTableReach(fc, s, map[string]bool{"mp4.AC3SampleRates": true}) })
 	ruleCodecStringVerbatim(c, r)
+	ruleConfRecProfileAlways(c, r)
+	if n := ruleReducedNotRaw(c, r, func(f *ssa.Function) bool {
+		return strings.HasPrefix(SSAFuncName(f), "avc.") || strings.HasPrefix(SSAFuncName(f), "hevc.")
+	}); n < 1 {
+		r.Undecided("L-RAWFIELD", "scope", "", "no field reduced with a constant modulus and compared found (avc slice_type expected)")
+	}
+	requireFixture(r, "L-RAWFIELD", "parseRawWrong", func(fc *Ctx, s *Report) { ruleReducedNotRaw(fc, s, nil) })
+	if n := ruleSizeAfterLastRead(c, r, func(f *ssa.Function) bool {
+		return strings.HasPrefix(SSAFuncName(f), "avc.") || strings.HasPrefix(SSAFuncName(f), "hevc.")
+	}); n < 3 {
+		r.Undecided("O-SIZELAST", "scope", "", fmt.Sprintf("only %d stores of the reader's byte count into a result found (SliceHeader.Size in avc and hevc, SPS.NrBytesRead expected)", n))
+	}
 	if n := ruleSignedMod(c, r, func(f *ssa.Function) bool {
 		return strings.HasPrefix(SSAFuncName(f), "avc.") || strings.HasPrefix(SSAFuncName(f), "hevc.")
 	}); n < 1 {
@@ -212,6 +224,7 @@ func checkC19(c *Ctx, r *Report) {
 		"MdhdBox.SetLanguage overwrites (does not combine with the old value); the SetAACDescriptor arm that sets parametric stereo also sets SBR and the extension frequency; (FWD-SWAP) nowhere in the repository are two same-typed parameters passed crosswise to a callee whose parameters have the same two names; (FWD) when a function of the init-segment API forwards to a callee that has a parameter of the same name and type as one of its own parameters, the argument in that position depends on that parameter (no swapped / substituted flags); " +
 		"(L-COPYMUT) the descriptor setters (and the rest of mp4/avc/hevc) do not call a mutating pointer-receiver method on a local copy of a field (rec := box.Rec; rec.Add(…)): the parameter sets handed to SetHEVCDescriptor must reach the box; (L-APPENDALIAS) MoovBox.AddChild and every other function of package mp4 that appends to a truncated slice x[:k] reads no tail x[j:] of the old slice afterwards (a trak inserted after the last trak must not overwrite the box that followed it); (T-REACH) every guarded lookup into the AC-3 specification tables (sample rates, bit rates, channel modes: used by SetAC3Descriptor/SetEC3Descriptor and the dac3/dec3 boxes) admits every index below the table length: no dominating test is tighter than index < len(table); (O-ERR) errors from the descriptor builders are looked at on every path. Does not decide encode/decode equality of the built tree or golden-file equality."
 	ruleSetterOverwrites(c, r)
+	ruleConfRecProfileAlways(c, r)
 	if n := ruleRawBeforeDefault(c, r, func(f *ssa.Function) bool { return strings.HasPrefix(SSAFuncName(f), "mp4.") }); n < 2 {
 		r.Undecided("L-RAWDEFAULT", "scope", "", "defaulted parameters (SetWvttDescriptor config, SetStppDescriptor namespace) not found")
 	}
